@@ -1012,6 +1012,81 @@ fn probe_algebra(w: &mut World, a: usize, x: u32, y: u32) -> Result<(), Violatio
         if dx != dy || !sv_eq(&sx, &sy) || px != py {
             return v(w, "C08", "diff-vs-apply", format!("applying diff_updates_v{}(u, sv) to a document with vector sv = {:?} differs from applying u:\n   diffed {} {:?} pending {}\n   whole  {} {:?} pending {}", if v2 { 2 } else { 1 }, sv, dx, sx, px, dy, sy, py));
         }
+        // document-free oracle for arbitrary cuts (also strictly inside blocks and inside GC ranges, which the state vector of
+        // a real peer seldom hits): diff_updates(u, sv) must be exactly the restriction of u to the clocks >= sv, unit by unit
+        // with the same kind, and must carry u's delete set
+        if let Ok(uu) = if v2 { Update::decode_v2(&u) } else { Update::decode_v1(&u) } {
+            let ub = yrs::verif::update_blocks(&uu);
+            let mut kinds: HashMap<(u64, u32), u8> = HashMap::new();
+            let mut ends: std::collections::BTreeMap<u64, (u32, u32)> = Default::default();
+            // clocks that lie inside a surrogate pair of a string block: no vector of a peer editing on character boundaries
+            // falls there, and a string cannot be cut there without replacing the halves
+            let mut inside_pair: HashSet<(u64, u32)> = HashSet::new();
+            for b in ub.iter().filter(|b| b.kind != 2) {
+                if b.kind == 0 && b.content == 4 {
+                    let txt = b.text.trim_matches('\'');
+                    let mut off = 0u32;
+                    for ch in txt.chars() {
+                        if ch.len_utf16() == 2 {
+                            inside_pair.insert((b.id.client.get(), b.id.clock + off + 1));
+                        }
+                        off += ch.len_utf16() as u32;
+                    }
+                }
+                for k in b.id.clock..b.id.clock + b.len {
+                    kinds.insert((b.id.client.get(), k), b.kind);
+                }
+                let e = ends.entry(b.id.client.get()).or_insert((b.id.clock, b.id.clock + b.len));
+                e.0 = e.0.min(b.id.clock);
+                e.1 = e.1.max(b.id.clock + b.len);
+            }
+            for _ in 0..2 {
+                let mut cut = StateVector::default();
+                for (c, (lo, hi)) in ends.iter() {
+                    let mut at = match rng.u8(0..4) {
+                        0 => 0,
+                        1 => *hi,
+                        _ => rng.u32(*lo..=*hi),
+                    };
+                    if inside_pair.contains(&(*c, at)) {
+                        at += 1;
+                    }
+                    if at > 0 {
+                        cut.set_max(yrs::block::ClientID::new(*c), at);
+                    }
+                }
+                let cb = if v2 { cut.encode_v2() } else { cut.encode_v1() };
+                let d = match catch(|| if v2 { yrs::diff_updates_v2(&u, &cb) } else { yrs::diff_updates_v1(&u, &cb) }) {
+                    Err(p) => return v(w, "C08", &format!("panic:{}", p.split(' ').next().unwrap_or("")), format!("diff_updates panicked on cut {:?}: {}", cut, p)),
+                    Ok(Err(e)) => return v(w, "C08", "diff-error", format!("diff_updates failed on cut {:?}: {}", cut, e)),
+                    Ok(Ok(d)) => d,
+                };
+                let dd = match if v2 { Update::decode_v2(&d) } else { Update::decode_v1(&d) } {
+                    Ok(x) => x,
+                    Err(e) => return v(w, "C08", "diff-undecodable", format!("the output of diff_updates for cut {:?} does not decode: {}", cut, e)),
+                };
+                let mut got: HashMap<(u64, u32), u8> = HashMap::new();
+                for b in yrs::verif::update_blocks(&dd).iter().filter(|b| b.kind != 2) {
+                    for k in b.id.clock..b.id.clock + b.len {
+                        got.insert((b.id.client.get(), k), b.kind);
+                    }
+                }
+                let want: HashMap<(u64, u32), u8> = kinds.iter().filter(|((c, k), _)| *k >= cut.get(&yrs::block::ClientID::new(*c))).map(|(a, b)| (*a, *b)).collect();
+                w.cnt.inc("c08_cut_diffs");
+                if got != want {
+                    let mut extra: Vec<_> = got.iter().filter(|(k, v)| want.get(*k) != Some(*v)).map(|(k, v)| (*k, *v)).collect();
+                    let mut missing: Vec<_> = want.iter().filter(|(k, v)| got.get(*k) != Some(*v)).map(|(k, v)| (*k, *v)).collect();
+                    extra.sort();
+                    missing.sort();
+                    extra.truncate(6);
+                    missing.truncate(6);
+                    return v(w, "C08", "diff-not-restriction", format!("diff_updates_v{}(u, {:?}) is not u restricted to the clocks above the vector: units (client, clock) -> kind it should not carry or carries in another kind {:?}, units it lacks {:?}", if v2 { 2 } else { 1 }, cut, extra, missing));
+                }
+                if crate::model::idset_units(dd.delete_set()) != crate::model::idset_units(uu.delete_set()) {
+                    return v(w, "C08", "diff-drops-deletions", format!("diff_updates_v{}(u, {:?}) does not carry u's delete set", if v2 { 2 } else { 1 }, cut));
+                }
+            }
+        }
         // encode_state_vector_from_update(u) for the gap-free whole-history update
         let f0 = fresh(400_013);
         if f0.apply(&u, v2).is_ok() && !f0.doc.transact().has_missing_updates() {
